@@ -4,7 +4,7 @@
    table state (any mix of FULL / DELETED / EMPTY), every n, m in [0, 2^64), every element
    layout, every hasher. *)
 From Coq Require Import ZArith List Bool Permutation.
-From HB Require Import RsPrelude Sse2 Gen Group Raw Check WFDefs RawOpsSafe SafeAllocClear ChurnFacts.
+From HB Require Import RsPrelude Sse2 Gen Group Raw Check WFDefs RawOpsSafe SafeAllocClear ChurnFacts ShrinkBound.
 Import ListNotations.
 Open Scope Z_scope.
 
@@ -70,6 +70,40 @@ Section C08.
     shrink_post B T tsize talign hasher t min_size alloc_refuses
       (shrink_to B T tsize talign needs_drop drop_ok hasher t min_size alloc_refuses).
   Proof. exact (shrink_to_spec B T HW HB tsize talign Hts Hta needs_drop drop_ok hasher). Qed.
+
+  (* a fresh with_capacity(cap), cap <> 0, has exactly capacity_to_buckets(cap) buckets *)
+  Theorem C08_fresh_table_buckets : forall cap alloc_refuses f t' evs tr nbk,
+    0 <= cap < 2 ^ 64 ->
+    fallible_with_capacity B T tsize talign cap alloc_refuses f = Ok (Some t', evs, tr) ->
+    cap <> 0 ->
+    capacity_to_buckets (zn (bk_width B)) cap (lay_size B tsize talign) (ctrl_align B tsize talign) = Some nbk ->
+    Z.of_nat (nb T t') = nbk.
+  Proof. exact (fresh_table_buckets B T HW tsize talign Hts Hta). Qed.
+
+  (* shrink_to(m), when it shrinks or keeps the table: the allocation is left no larger than a
+     fresh with_capacity(max(len, m)) would be -- at most capacity_to_buckets(max(len, m)) buckets,
+     the bucket count of that fresh table (C08_fresh_table_buckets).  (max(len, m) = 0 is the
+     "frees everything" clause of C08_shrink_to.) *)
+  Theorem C08_shrink_to_not_larger_than_fresh : forall t min_size alloc_refuses t' evs,
+    SafeWF B T t -> TOwn B T tsize talign t -> 0 <= min_size < 2 ^ 64 ->
+    shrink_to B T tsize talign needs_drop drop_ok hasher t min_size alloc_refuses = Ok (t', evs, false) ->
+    Z.max (items t) min_size <> 0 ->
+    forall nbk,
+      capacity_to_buckets (zn (bk_width B)) (Z.max (items t) min_size)
+        (lay_size B tsize talign) (ctrl_align B tsize talign) = Some nbk ->
+      Z.of_nat (nb T t') <= nbk.
+  Proof. exact (shrink_to_fresh_bound B T HW HB tsize talign Hts Hta needs_drop drop_ok hasher). Qed.
+
+  (* the same against the table with_capacity(max(len, m)) actually returns, in buckets and in
+     bytes (allocation_size); includes max(len, m) = 0, where both are the unallocated singleton *)
+  Theorem C08_shrink_to_vs_fresh_table : forall t min_size alloc_refuses t' evs ar f ft fevs tr,
+    SafeWF B T t -> TOwn B T tsize talign t -> 0 <= min_size < 2 ^ 64 ->
+    shrink_to B T tsize talign needs_drop drop_ok hasher t min_size alloc_refuses = Ok (t', evs, false) ->
+    fallible_with_capacity B T tsize talign (Z.max (items t) min_size) ar f = Ok (Some ft, fevs, tr) ->
+    (nb T t' <= nb T ft)%nat /\
+    forall sz szf, allocation_size B T tsize talign t' = Ok sz ->
+                   allocation_size B T tsize talign ft = Ok szf -> sz <= szf.
+  Proof. exact (shrink_to_vs_fresh_table B T HW HB tsize talign Hts Hta needs_drop drop_ok hasher). Qed.
 End C08.
 
 Print Assumptions C08_capacity_ge_len.
@@ -78,3 +112,6 @@ Print Assumptions C08_reserve.
 Print Assumptions C08_no_alloc_while_room.
 Print Assumptions C08_clear_keeps_allocation.
 Print Assumptions C08_shrink_to.
+Print Assumptions C08_fresh_table_buckets.
+Print Assumptions C08_shrink_to_not_larger_than_fresh.
+Print Assumptions C08_shrink_to_vs_fresh_table.
